@@ -207,7 +207,7 @@ package client
 //@   ensures [nothing-pending] called(LoadAndDelete) && !callRes(LoadAndDelete, 0, 1) ==> notCalled(handler) && notCalled(AcquireMessage) && (handled <==> callRes(IsSeparateMessage, 0, 0))
 //
 //@ func (*Conn) Process(cm *coapNet.ControlMessage, datagram []byte) (err error)
-//@   requires cc != nil && len(datagram) < 1099511627776
+//@   requires cc != nil && len(datagram) < 1099511627776 && cc.midHandlerContainer != nil
 //@   modifies anything
 //@   opaque-calls pure
 //@   ensures [every-message-counts] called(UnmarshalWithDecoder) && callRes(UnmarshalWithDecoder, 0, 1) == nil && called(requestMonitor) && callRes(requestMonitor, 0, 1) == nil && !callRes(requestMonitor, 0, 0) ==> called(Notify)
